@@ -422,6 +422,39 @@ def check(run):
     elif mw and not mw[0].startswith("accept initsafe=1 stepsafe=1"):
         run.mismatch("table:meta.replicas", mlw, "accept", mw[0])
 
+    # ------------------------------------------------------------------ 3c'. vector-valued keywords (tie of vector_keyword)
+    vjobs, vlines, vcases = [], [], []
+    for label, tmpl, presized, elem in T.VECTORS:
+        for v in T.VECTOR_VALUES + (["-1 1", "1 -1"] if elem == "nonneg" or label.startswith("harmonic") else []):
+            k = len(vcases)
+            vcases.append((label, v))
+            vlines.append("vector n=2 presized=%s elem=%s toks=%s" % ("on" if presized else "off", elem, ",".join(v.split())))
+            sc = T.scenario(tmpl.replace("{V}", v), 3, nsteps=4)
+            for var in variants:
+                if var == "asan" and quick and k % 4 != run.seed % 4:
+                    continue
+                vjobs.append(((k, var), plain if var == "plain" else asan, sc, os.path.join(W, "v", var, str(k)), var, 20 if var == "plain" else 60))
+    rc, vout, verr = V.run_lines(model, vlines)
+    vres = L.run_many(vjobs)
+    for (k, var), rr in sorted(vres.items()):
+        label, v = vcases[k]
+        mo = vout[k] if k < len(vout) else "<none>"
+        sc = [j for j in vjobs if j[0] == (k, var)][0][2]
+        lc = last_config(rr)
+        impl = rr["cls"] if rr["cls"] != "ok" else ("accept" if lc and lc[0] == "ok" else "reject")
+        run.count(("vector", label, v, var), impl != "accept")
+        run.dist("vector:%s" % (impl if impl in ("accept", "reject") else "died"))
+        if rr.get("skipped"):
+            continue
+        if rr["cls"] != "ok":
+            report_death("vector", label, v or "empty", var, rr, sc, vclass="list:" + ("-".join(value_class(t) for t in v.split()) or "empty"))
+            continue
+        if impl == "reject":
+            check_survivors("vector", label, v, var, rr, sc)
+        if impl != mo.split()[0]:
+            run.mismatch("vector:" + label, "%s = %s (%s)" % (label, v, var), impl, mo)
+    run.sample({"vector_case": "%s = %s" % vcases[1], "model": vout[1] if len(vout) > 1 else None})
+
     # ------------------------------------------------------------------ 3d. run-time paths: script commands after two steps
     rt_conf = (T.cv("x", 1, T.GRIDCV) + "harmonic {\n  name r\n  colvars x\n  centers 1.0\n  forceConstant 2.0\n}\n"
                "histogram {\n  name h\n  colvars x\n  outputFreq 2\n}\n")
